@@ -989,11 +989,8 @@ class ParseContext:
                     if next is None:
                         return False
 
-                    try:
-                        next.groups.index(part)
-                    except IndexError:
-                        if next.name != part:
-                            return False
+                    if next.name != part and part not in next.groups:
+                        return False
 
                     depth -= 1
                 i -= 1
